@@ -973,6 +973,170 @@ def run_absorbed(item: dict) -> dict:
     return rep
 
 
+# ---------------------------------------------------------------------------------------------
+# A skip check that is overtaken: an input record is replaced (by an identical one) while the step is CHECKING
+# ---------------------------------------------------------------------------------------------
+
+
+def overtaken_project(variant: str) -> tuple[e3.Project, list, list, dict]:
+    """work (b1.txt, x2 -> t.out) is outside the cone of the edit of list1.txt and list2.txt:
+    ./decl1.py (list1.txt) declares the static file b1.txt again -> confirmed anew, unchanged -> work is CHECKED;
+    declarer:  ./decl2.py (slow.txt, produced by `slow` from list2.txt) declares the static file b2.txt = x2: while work
+               is being checked decl2 is reset for its rerun (b2.txt is detached) and declares b2.txt again only after
+               the check has ended;
+    producer:  the absorber ta (list2.txt -> a.out = x2, constant content) is reset for its rerun (a.out OUTDATED)
+               while work is being checked and rewrites a.out identically afterwards.
+    Either way the recording transaction of the check finds an input record replaced (Executor._inputs_overtaken);
+    the step must be checked again later and skipped: nothing it reads has changed."""
+    sources = {"list1.txt": "list 1 v0\n", "list2.txt": "list 2 v0\n", "b1.txt": "static b1\n", "b2.txt": "static b2\n"}
+    scripts = {"decl1.py": [{"op": "static", "paths": ["b1.txt"]}]}
+    plan = [{"op": "static", "paths": ["list1.txt", "list2.txt", "decl1.py"]},
+            {"op": "run", "label": "./decl1.py", "inp": ["list1.txt"], "out": []}]
+    commands = {}
+    if variant == "declarer":
+        scripts["decl2.py"] = [{"op": "static", "paths": ["b2.txt"]}]
+        plan += [{"op": "static", "paths": ["decl2.py"]},
+                 {"op": "step", "label": "slow", "inp": ["list2.txt"], "out": ["slow.txt"]},
+                 {"op": "run", "label": "./decl2.py", "inp": ["slow.txt"], "out": []},
+                 {"op": "step", "label": "work", "inp": ["b1.txt", "b2.txt"], "out": ["t.out"]}]
+        hooks = {"checked": "work", "hold_until_check_started": "slow", "replacer": "./decl2.py"}
+    else:
+        plan += [{"op": "step", "label": "ta", "inp": ["list2.txt"], "out": ["a.out"]},
+                 {"op": "step", "label": "work", "inp": ["a.out", "b1.txt"], "out": ["t.out"]}]
+        commands["ta"] = [{"op": "read", "paths": ["list2.txt"], "required": True},
+                          {"op": "write", "path": "a.out", "content": "constant output\n"}]
+        hooks = {"checked": "work", "hold_until_check_started": None, "replacer": "ta"}
+    scripts["plan.py"] = plan
+    project = e3.Project(sources, {"scripts": scripts, "commands": commands}, {})
+    edits = [{"op": "write", "path": p, "content": sources[p] + "edited\n"} for p in ("list1.txt", "list2.txt")]
+    return project, edits, ["list1.txt", "list2.txt"], hooks
+
+
+class _OvertakenHooks:
+    """Orders three moments of ONE build of the real director with asyncio events (no sleeps): the output hashing
+    inside the skip check of `checked` waits until `replacer` has been reset for its rerun (its static file detached /
+    its output OUTDATED) and is about to run its command; that command starts only after the check has ended."""
+
+    def __init__(self, hooks: dict):
+        self.h = hooks
+        self.ev = {}
+        self.reached = {"check_started": 0, "replaced_during_check": 0, "check_ended": 0}
+        self.first_check = True
+
+    def event(self, name):
+        import asyncio
+        return self.ev.setdefault(name, asyncio.Event())
+
+    async def wait(self, name, timeout=20):
+        import asyncio
+        try:
+            await asyncio.wait_for(self.event(name).wait(), timeout)
+            return True
+        except asyncio.TimeoutError:
+            return False
+
+    def install(self, stack):
+        from stepup.core.executor import Executor
+        me = self
+        orig_out, orig_skip, orig_cmd = Executor._compute_out_step_hash, Executor.try_skip_job, Executor._run_command
+
+        async def out_hook(self, run, step_hash):
+            if run.step.label == me.h["checked"] and me.first_check:
+                me.first_check = False
+                me.reached["check_started"] += 1
+                me.event("check_started").set()
+                if await me.wait("replaced"):
+                    me.reached["replaced_during_check"] += 1
+            return await orig_out(self, run, step_hash)
+
+        async def skip_hook(self, job_i, step, *args, **kw):
+            try:
+                return await orig_skip(self, job_i, step, *args, **kw)
+            finally:
+                if step.label == me.h["checked"] and me.event("check_started").is_set():
+                    me.reached["check_ended"] += 1
+                    me.event("check_ended").set()
+
+        async def cmd_hook(self, run):
+            label = run.step.label
+            if label == me.h["hold_until_check_started"]:
+                await me.wait("check_started")
+            if label == me.h["replacer"]:
+                await me.wait("check_started")
+                if not me.event("check_ended").is_set():
+                    me.event("replaced").set()            # reset_for_rerun of this step has been committed
+                    await me.wait("check_ended")
+            return await orig_cmd(self, run)
+
+        Executor._compute_out_step_hash, Executor.try_skip_job, Executor._run_command = out_hook, skip_hook, cmd_hook
+        stack.callback(setattr, Executor, "_compute_out_step_hash", orig_out)
+        stack.callback(setattr, Executor, "try_skip_job", orig_skip)
+        stack.callback(setattr, Executor, "_run_command", orig_cmd)
+
+
+def run_overtaken(item: dict) -> dict:
+    """item: {"seed", "variant": "declarer"|"producer"}.  Restart flavour, njob 2: build, edit list1.txt and
+    list2.txt, rebuild with the interleaving forced by _OvertakenHooks; the clauses of the property and the skip rule
+    on the rebuild."""
+    import contextlib
+    # only the declarer variant overlaps a check: a consumer is not dispatched while a BUILT input is OUTDATED, so a
+    # rerunning producer cannot overtake the check of its consumer within one build phase
+    variant = item.get("variant") or "declarer"
+    project, edits, edited, hooks = overtaken_project(variant)
+    report = {"seed": item["seed"], "flavour": "restart", "kind": "overtaken", "variant": variant, "failures": [],
+              "stats": {}, "nbuilds": 0, "project": project.to_json(), "history": [], "cone_edits": [edits, edited]}
+    stats = report["stats"]
+
+    def count(key, n=1):
+        stats[key] = stats.get(key, 0) + n
+
+    def fail(sig, detail, extra=None):
+        report["failures"].append({"signature": sig, "detail": detail, **(extra or {})})
+    kw = {"resources": "tok:1", "njob": 2, "timeout": item.get("timeout", 90)}
+    proj = project.clone()
+    try:
+        with tempfile.TemporaryDirectory(prefix="c04-ovt-") as root:
+            proj.materialise(root)
+            ref = e3.build(root, proj.program, env={}, **kw)
+            report["nbuilds"] += 1
+            if ref.returncode != OK_RC or ref.error:
+                count(f"overtaken:first-build-rc:{ref.returncode}")
+                return report
+            apply_edits(proj, root, edits)
+            hk = _OvertakenHooks(hooks)
+            with contextlib.ExitStack() as stack:
+                hk.install(stack)
+                new = e3.build(root, proj.program, env={}, **kw)
+            report["nbuilds"] += 1
+            reached = hk.reached["replaced_during_check"] > 0 and hk.reached["check_ended"] > 0
+            count(f"overtaken:{variant}:interleaving_reached={reached}")
+            pre, post = graph_relations(ref.graph), graph_relations(new.graph)
+            executed = new.executed()
+            report["cone_log"] = {"ran": sorted(set(executed)),
+                                  "skipped": sorted({e[1] for e in new.events if e[0] == "SKIP"}), "reached": hk.reached}
+            tag = f"edited {edited}; while {hooks['checked']!r} was being checked, {hooks['replacer']!r} was reset for " \
+                  f"its rerun ({variant}: an input record of the checked step is replaced by an identical one)"
+            if new.error or new.returncode != OK_RC:
+                fail("oracle:cone:restart:overtaken-check:build-failed", f"{tag}; rc {new.returncode} {new.error}")
+                return report
+            bad = unjustified(executed, edited, pre, post)
+            if bad:
+                fail("oracle:cone:restart:overtaken-check:executed-outside-cone",
+                     f"{tag}; executed {executed}; not justified by any clause: {bad}",
+                     {"edited": edited, "executed": executed, "unjustified": bad})
+            causeless = rerun_without_cause(executed, edited, pre, post, ref.files, new.files, stats,
+                                            declared_steps(proj.program))
+            if causeless:
+                fail("oracle:cone:restart:overtaken-check:executed-with-unchanged-inputs",
+                     f"{tag}; executed {executed}; declared as before, inputs with the same content: {causeless}",
+                     {"edited": edited, "executed": executed, "causeless": causeless})
+    except e3.E3Timeout as exc:
+        report["timeout"] = f"{exc.args[0]} {exc.args[1] if len(exc.args) > 1 else ''}"
+    except e3.E3Error as exc:
+        report["timeout"] = f"E3Error: {exc}"
+    return report
+
+
 def build_kw(item: dict) -> dict:
     return {"resources": "tok:1", "njob": item.get("njob", 1), "timeout": item.get("timeout", 60)}
 
@@ -984,6 +1148,8 @@ def run_case(item: dict) -> dict:
         return run_env_multi(item)
     if item.get("kind") == "absorbed":
         return run_absorbed(item)
+    if item.get("kind") == "overtaken":
+        return run_overtaken(item)
     seed = item["seed"]
     flavour = item["flavour"]
     rng = random.Random(f"c04-e3-{seed}-{flavour}")
